@@ -38,6 +38,8 @@ def run_unit(A, unit, rep, tier):
     mode = exclusion_mode(m)
     if mode is None:
         raise AnalysisError("anchor: AbstractTypeResolver.get_type has no cache-exclusion test on cache_blocklist")
+    if mode == "unknown":
+        raise AnalysisError("anchor: the cache-exclusion test of AbstractTypeResolver.get_type is neither a membership test nor an issubclass/isinstance call on cache_blocklist; not decided")
     for r in rs:
         bl = blocklist_names(m, r)
         if bl is None:
